@@ -1238,36 +1238,43 @@ type c10alt struct {
 	expr        ssa.Value
 	rejectTruth bool
 	facts       []Fact // facts that tell this way apart from the others
+	opaque      bool   // the value flowing in on this way is not a constant: the comparison is not resolved
 }
 
+// c10alternatives: the ways a branch condition gets its value. A verdict kept in a boolean is a merge of conditions
+// and constants; a verdict kept in another variable (the log line to print, an error code, an error that is nil or
+// was just made) compared with a constant is a merge of constants: on each incoming edge the comparison has a definite
+// truth value (c10_facts.go), which is handed out as a boolean constant.
 func c10alternatives(cond ssa.Value, rejectTruth bool, facts []Fact, depth int) []c10alt {
 	cond, rejectTruth = c10stripNot(cond, rejectTruth)
-	phi, ok := cond.(*ssa.Phi)
-	if !ok || depth > 3 {
-		return []c10alt{{cond, rejectTruth, facts}}
+	if depth > 3 {
+		return []c10alt{{expr: cond, rejectTruth: rejectTruth, facts: facts}}
 	}
-	here := map[ssa.Value]bool{}
-	for _, f := range localFactsAt(phi.Block()) {
-		here[f.Cond] = true
+	if phi, k, eqWhenTrue, ok := c10constCompare(cond); ok {
+		var out []c10alt
+		for j, ed := range phi.Edges {
+			if j >= len(phi.Block().Preds) {
+				break
+			}
+			own := append(append([]Fact{}, facts...), c10edgeFacts(phi, j)...)
+			if eq, known := c10edgeEquals(ed, k, phi.Block().Preds[j]); known {
+				out = append(out, c10alt{expr: c10boolConst(eq == eqWhenTrue), rejectTruth: rejectTruth, facts: own})
+			} else {
+				out = append(out, c10alt{expr: cond, rejectTruth: rejectTruth, facts: own, opaque: true})
+			}
+		}
+		return out
+	}
+	phi, ok := cond.(*ssa.Phi)
+	if !ok {
+		return []c10alt{{expr: cond, rejectTruth: rejectTruth, facts: facts}}
 	}
 	var out []c10alt
 	for k, ed := range phi.Edges {
 		if k >= len(phi.Block().Preds) {
 			break
 		}
-		pred := phi.Block().Preds[k]
-		fs := localFactsAt(pred)
-		if n := len(pred.Instrs); n > 0 && len(pred.Succs) == 2 && pred.Succs[0] != pred.Succs[1] {
-			if iff, ok := pred.Instrs[n-1].(*ssa.If); ok {
-				fs = appendCondFacts(fs, iff.Cond, pred.Succs[0] == phi.Block(), 0)
-			}
-		}
-		own := append([]Fact{}, facts...)
-		for _, f := range fs {
-			if !here[f.Cond] {
-				own = append(own, f)
-			}
-		}
+		own := append(append([]Fact{}, facts...), c10edgeFacts(phi, k)...)
 		out = append(out, c10alternatives(ed, rejectTruth, own, depth+1)...)
 	}
 	return out
@@ -1447,26 +1454,71 @@ func c10lastByteIsDot(x *c10flow, b, k ssa.Value) bool {
 
 // c10nameTestAllowed: the condition, taking truth value rejectTruth on the reject edge, turns away nothing but the
 // empty name (name == "", len(name) compared with a constant so that only 0 is rejected) or a name with a trailing dot
-// (strings.HasSuffix(name, ".")); a verdict kept in a boolean is allowed when each tainted input of the merge is.
+// (strings.HasSuffix(name, ".")). A verdict kept in a variable (a boolean, or the log line / code / error that is
+// compared with a constant afterwards) is resolved into the ways it gets its value (c10alternatives): a way that carries
+// a test of the name must carry an allowed one, and a way that rejects whatever flows in (a constant) must have been
+// selected by allowed tests only - `valid := true; if len(name) > 253 { valid = false }; if !valid` is the same filter
+// as `if len(name) > 253`.
 func c10nameTestAllowed(x *c10flow, cond ssa.Value, rejectTruth bool, depth int) bool {
 	cond, rejectTruth = c10stripNot(cond, rejectTruth)
 	if depth > 4 {
 		return false
 	}
-	switch y := cond.(type) {
-	case *ssa.Phi:
-		for _, ed := range y.Edges {
-			if _, isK := constBool(ed); isK || !x.val[ed] {
-				continue
-			}
-			if !c10nameTestAllowed(x, ed, rejectTruth, depth+1) {
-				return false
-			}
+	alts := c10alternatives(cond, rejectTruth, nil, 0)
+	if len(alts) == 1 && alts[0].expr == cond && !alts[0].opaque {
+		return c10nameAtomAllowed(x, cond, rejectTruth)
+	}
+	for _, a := range alts {
+		if a.opaque {
+			return false // a verdict variable that also takes computed values: not resolved
 		}
-		return true
+		if k, isK := constBool(a.expr); isK {
+			if k != a.rejectTruth {
+				continue // this way does not reject
+			}
+			for _, f := range a.facts {
+				fc, ft := c10stripNot(f.Cond, f.Truth)
+				if !x.val[fc] {
+					continue
+				}
+				if gs, idx := c10verdictOfCallee(x, fc); len(gs) > 0 {
+					data := false
+					for _, g := range gs {
+						if x.retData[g][idx] {
+							data = true
+						}
+					}
+					if !data {
+						continue // the verdict of a helper: judged at the helper's own branches
+					}
+				}
+				if !c10nameTestAllowed(x, fc, ft, depth+1) {
+					return false
+				}
+			}
+			continue
+		}
+		if !x.val[a.expr] {
+			continue
+		}
+		if !c10nameTestAllowed(x, a.expr, a.rejectTruth, depth+1) {
+			return false
+		}
+	}
+	return true
+}
+
+// c10nameAtomAllowed: one test (not a merge) that may send a name to the reject edge.
+func c10nameAtomAllowed(x *c10flow, cond ssa.Value, rejectTruth bool) bool {
+	switch y := cond.(type) {
 	case *ssa.Call:
-		if calleeName(&y.Call) == "strings.HasSuffix" && len(y.Call.Args) == 2 && rejectTruth {
-			s, ok := constString(y.Call.Args[1])
+		if name := calleeName(&y.Call); (name == "strings.HasSuffix" || name == "bytes.HasSuffix") && len(y.Call.Args) == 2 && rejectTruth {
+			// the trailing dot, tested on the string or on the bytes it is made of ([]byte("."))
+			suffix := y.Call.Args[1]
+			if cv, isConv := suffix.(*ssa.Convert); isConv {
+				suffix = cv.X
+			}
+			s, ok := constString(suffix)
 			return ok && s == "."
 		}
 		return false
